@@ -790,6 +790,9 @@ func (node *TopNode) resolveSplit(binding *syntax.SplitExp, t syntax.Type,
 					}
 				}
 			}
+			if err := checkSplitLength(result, part, binding); err != nil {
+				return ready, nil, err
+			}
 			e, err := getElement(result, part.Id)
 			if err != nil {
 				err = &elementError{
@@ -835,6 +838,54 @@ func (node *TopNode) resolveSplit(binding *syntax.SplitExp, t syntax.Type,
 		return ready, &b, nil
 	}
 	return ready, binding, nil
+}
+
+// checkSplitLength checks that the run-time value of a split argument has as
+// many elements as the call has forks.  All of the split arguments of a call
+// must agree; the number of forks comes from one of them (a literal, if
+// there is one), and a longer run-time collection would otherwise be
+// truncated silently.
+func checkSplitLength(result json.Marshaler, part *ForkSourcePart,
+	binding *syntax.SplitExp) error {
+	if part.Split == nil || part.Split.Call != binding.Call ||
+		part.Id.IndexSource() != nil {
+		return nil
+	}
+	if part.Range == nil && !part.Split.Source.KnownLength() {
+		return nil
+	}
+	expected := part.GetRange().Length()
+	if expected < 0 {
+		return nil
+	}
+	var actual int
+	switch part.Id.Mode() {
+	case syntax.ModeArrayCall:
+		n, err := getUnknownLength(result)
+		if err != nil {
+			return nil
+		}
+		actual = n
+	case syntax.ModeMapCall:
+		keys, err := getUnknownKeys(result)
+		if err != nil {
+			return nil
+		}
+		actual = len(keys)
+	default:
+		return nil
+	}
+	if actual != expected {
+		return &elementError{
+			element: "splitting " + binding.Source.CallMode().String() +
+				" " + binding.Value.GoString() + " for " +
+				binding.Call.GoString(),
+			inner: fmt.Errorf(
+				"%s length mismatch: the value has %d elements but the call is split %d ways",
+				binding.Source.CallMode().String(), actual, expected),
+		}
+	}
+	return nil
 }
 
 func getElement(result json.Marshaler,
